@@ -114,3 +114,17 @@ def malformed(rng, n, pts):
 
 
 PTS = [0, 1, 48, 57, 97, 98, 99, 100, 122, 0xFFFD, MAXC - 1, MAXC]
+
+
+def tiny_alphabet_spec(rng, n):
+    """all states cover the alphabet with the SAME cut points and declare no default: the combined
+    alphabet has 1-3 classes, rows of the compact table are dense and collide"""
+    cuts = sorted(set([0] + rng.sample([1, 97, 98, 0xFFFD, MAXC], rng.choice([0, 0, 1, 2]))))
+    stmts = ["new 0"]
+    for s in range(n):
+        for i, a in enumerate(cuts):
+            b = (cuts[i + 1] - 1) if i + 1 < len(cuts) else MAXC
+            stmts.append("add %d %d %d %d" % (s, a, b, rng.randrange(n)))
+        if rng.random() < 0.4:
+            stmts.append("fin %d" % s)
+    return stmts
